@@ -79,6 +79,26 @@ add("C20", "exploration",
     "B's lock timeout is semantic (50 ms wait while A holds the lock); when the model says B must succeed a timeout is retried with 30 s before judging. Interleavings inside one statement's file-system steps belong to C09.",
     "stateful property-based testing (rapid, generated histories with foreign commits) against a cache model", "DESIGN.md §3 C20")
 
+add("C03", "exploration",
+    "A query IR (tables, subqueries, CTEs incl. WITH RECURSIVE counting/traversal forms, CROSS/INNER/LEFT/RIGHT/FULL/NATURAL/USING/LATERAL joins, WHERE over a modelled predicate fragment, select lists with *, t.*, expressions, aliases) is rendered to SQL text for csvq and interpreted by an independent reference (nested-loop joins, Kleene filter, exact padding of unmatched rows, USING/NATURAL merge); results are compared as multisets (as sequences for single-source queries), column count and names included; 17% of cases use 160-400-row tables so the goroutine-split paths run (measured). A second sub-check requires unknown/ambiguous references to be ordinary errors.",
+    "Trusted: internal/ref/c03_select.go; value semantics restricted to integers, non-numeric short strings and NULL; open outcomes (integer vs non-numeric string, RIGHT JOIN USING value choice on differing spellings) accepted under one reading per query.",
+    "property-based testing (rapid) against a reference interpreter of the relational operators", "DESIGN.md §3 C03")
+
+add("C04", "exploration",
+    "Tables with a unique id and 1-3 key columns drawn from an alphabet that includes csvq's internal key delimiters, cross-type equal spellings, case/blank variants and NULL, on typed temporary tables and CSV files, both @@STRICT_EQUAL settings; GROUP BY (membership read through LISTAGG(id)), DISTINCT, UNION/EXCEPT/INTERSECT [ALL], PARTITION BY, empty inputs and HAVING. Oracle: rows equal under the strict reference equivalence share a bucket and bucket-mates are equal under the loose one (open pairs not asserted); 22 aggregates incl. a user aggregate are recomputed over exactly csvq's bucket; a dedicated collision search plants tuples whose naive key concatenations coincide.",
+    "Trusted: internal/ref/c04_bucket.go (normalisation ladder, reference aggregates, 1e-9 relative tolerance for floats). GROUP BY output order is not judged here (C12).",
+    "property-based testing (rapid) against a reference partition (strict <= csvq <= loose) with recomputed aggregates", "DESIGN.md §3 C04")
+
+add("C13", "exploration",
+    "Generated programs over >=160-row tables and >=300-record files at cpu 8-16 (filters, joins, grouping, set operators, sorting, analytic functions, DML, statements failing in a later worker's range, contexts cancelled while workers run, loads of all six formats, two sessions running concurrently) are executed in a worker process built with -race; after each case the new race reports are parsed, de-duplicated by the function-anchored pair of access sites and reported as violations with the case as replay file.",
+    "The race detector only sees executed interleavings (happens-before based: an unsynchronised access pair that executes is reported regardless of timing; code not reached is silent). Goroutine schedules are sampled.",
+    "generated workloads (rapid) under the Go race detector, per-case attribution through the race log", "DESIGN.md §3 C13")
+
+add("C14", "exploration",
+    "Generated programs over every built-in scalar/aggregate/analytic function (enumerated at run time) and operator, each pure unit repeated 2-3 times (literally, WHILE, function body, per-row function, user aggregate, prepared statement, cursor loop), with probes of variables, cursor rows and tables before and after, followed by DML. Three oracles: repetitions and equal-data rows agree and probes are unchanged; the same program with Discard poisoning gives identical output and no sentinel; the executed syntax tree (and prepared trees) DeepEqual a pristine parse.",
+    "Trusted: non-deterministic functions (RAND, NOW, CALL) excluded; poisoning relies on the verif Discard hook.",
+    "property-based testing (rapid) with metamorphic repetition, a poisoned-pool differential and a syntax-tree snapshot", "DESIGN.md §3 C14")
+
 NOT_YET = {}
 
 def main():
